@@ -154,7 +154,9 @@ package leanhelix
 //@ func (*MainLoop).sendUpdateMessageNonBlocking
 //@   props C14 C16
 //@   requires m.worker != nil && cap(m.worker.workerUpdateStateChannel) > 0
-//@   modifies ghost:nsent, ghost:lastCtxErrNil
+//@   modifies ghost:nsent, ghost:lastCtxErrNil, ghost:lastSent_blockWithProof
+//@   ensures [O14.1.the-sync-handed-to-the-worker-is-the-one-given] result == nil ==> lastSent_blockWithProof[m.worker.workerUpdateStateChannel] == blockWithProof
+//@   ensures [O14.1.nothing-else-is-handed-over] result != nil ==> lastSent_blockWithProof[m.worker.workerUpdateStateChannel] == old(lastSent_blockWithProof[m.worker.workerUpdateStateChannel])
 //@   ensures [O14.1.a-sync-is-dropped-only-on-shutdown] result != nil ==> !lastCtxErrNil && nsent == old(nsent)
 //@   ensures [O14.1.otherwise-it-is-handed-to-the-worker] result == nil ==> nsent == old(nsent) + 1
 
@@ -169,11 +171,16 @@ package leanhelix
 //@   props C12 C14 C15 C16
 //@   safety iface
 //@   requires m.worker != nil && m.state != nil && m.state.Contexts != nil && m.worker.state == m.state && m.electionScheduler != nil && ctx != nil && cap(m.worker.workerUpdateStateChannel) > 0 && cap(m.worker.electionChannel) > 0
-//@   modifies M:S_state_HeightView:Int, state.ViewContexts.newestHvCanceledOlder, state.ViewContexts.shutdown, ghost:cancelled, ghost:nsent, ghost:lastCtxErrNil
+//@   modifies M:S_state_HeightView:Int, state.ViewContexts.newestHvCanceledOlder, state.ViewContexts.shutdown, ghost:cancelled, ghost:nsent, ghost:lastCtxErrNil, ghost:lastSent_blockWithProof, D:primitives.BlockHeight
 //@   ensures [O16.3.contexts-shut-down-when-the-loop-ends] m.state.Contexts.shutdown && cancelled[m.state.Contexts.parentCtxWithCancel.cancel]
 //@   loop for
 //@     invariant [frame] m.worker == old(m.worker) && m.state == old(m.state) && m.state.Contexts == old(m.state.Contexts) && m.worker.state == m.state && m.state.Contexts.parentCtxWithCancel == old(m.state.Contexts.parentCtxWithCancel) && m.state.Contexts.hvToContext == old(m.state.Contexts.hvToContext) && m.worker.workerUpdateStateChannel == old(m.worker.workerUpdateStateChannel) && m.worker.electionChannel == old(m.worker.electionChannel)
 //@     invariant [O16.3.not-shut-down-while-running] m.state.Contexts.shutdown == old(m.state.Contexts.shutdown)
+// the filter of stale syncs holds exactly the height of the last sync handed to the worker - never more, so a newer
+// sync is never dropped (C14)
+//@     invariant [O14.1.the-stale-sync-filter-is-the-height-of-the-last-sync-handed-over] maxBlockHeightBySync != nil ==> lastSent_blockWithProof[m.worker.workerUpdateStateChannel] != nil
+//@       | && deref(maxBlockHeightBySync) == ite(ref(lastSent_blockWithProof[m.worker.workerUpdateStateChannel], *blockWithProof).block == nil, 0, ref(lastSent_blockWithProof[m.worker.workerUpdateStateChannel], *blockWithProof).block.Height())
+//@     invariant [O14.1.no-sync-handed-over-before-the-filter-is-set] maxBlockHeightBySync == nil ==> lastSent_blockWithProof[m.worker.workerUpdateStateChannel] == old(lastSent_blockWithProof[m.worker.workerUpdateStateChannel])
 //@   assert before call sendUpdateMessageNonBlocking [O12.a-nil-sync-is-never-forwarded-to-the-worker] $blockWithProof != nil
 //@   assert before call sendUpdateMessageNonBlocking [O14.1.only-newer-syncs-are-forwarded] maxBlockHeightBySync == nil || deref(maxBlockHeightBySync) < receivedBlockHeight
 //@   assert before call sendUpdateMessageNonBlocking [O14.1.older-contexts-cancelled-before-forwarding] m.state.Contexts.newestHvCanceledOlder != nil && !Older(m.state.Contexts.newestHvCanceledOlder.height, m.state.Contexts.newestHvCanceledOlder.view, (receivedBlockHeight + 1) % 2^64, 0)
